@@ -239,7 +239,15 @@ class MessageManager(interfaces.TokenInterface, interfaces.MessageManager):
             # A copy, as the message is not ours alone: the application may
             # return the same object for its next request, and token, remote,
             # type and message ID are set on it again on its way out.
-            self._recent_messages[key] = message.copy()
+            try:
+                self._recent_messages[key] = message.copy()
+            except Exception as e:
+                # The message is out already; failing now would make the
+                # sender answer a second time. A duplicate of the request
+                # just finds no response to repeat.
+                self.log.warning(
+                    "Sent message can not be kept for duplicates: %r", e
+                )
 
     #
     # coap dispatch, message-type sublayer: retransmission handling
